@@ -1,4 +1,5 @@
 import LinfaSpec.Proofs.LeastSquares
+import LinfaSpec.Proofs.LeastSquaresMtl
 import Mathlib.Algebra.Order.Field.Rat
 
 /-!
@@ -27,7 +28,7 @@ theorem gap_bounds_suboptimality (contig : Bool) (C : List (List α)) (y w w' : 
   have hl1 : 0 ≤ l1r * pen * n := mul_nonneg (mul_nonneg h0 hpen) hn
   have hl2 : 0 ≤ (1 - l1r) * pen * n := mul_nonneg (mul_nonneg (sub_nonneg.mpr h1) hpen) hn
   have hres : ∀ v, residual C y v 0 = List.zipWith (fun yi xi => yi - xi) y (matVec y.length C v) := by
-    intro v; simp [residual]
+    intro v; simp [LeastSquares.residual]
   have hrl : (residual C y w 0).length = y.length := by
     rw [hres]; simp [matVec_length _ _ _ hC]
   generalize hl1e : l1r * pen * n = l1 at hl1
@@ -107,7 +108,7 @@ theorem intercept_optimal_iff_mean (C : List (List α)) (y w : List α) (b : α)
     nlinarith
 
 example : (∀ b', sse (α := ℚ) [[1, 2, 3]] [1, 2, 4] [1] (1 / 3) ≤ sse [[1, 2, 3]] [1, 2, 4] [1] b') :=
-  (intercept_optimal_iff_mean _ _ _ _ (by simp) (by simp)).mpr (by simp [residual, matVec, sumS]; norm_num)
+  (intercept_optimal_iff_mean _ _ _ _ (by simp) (by simp)).mpr (by simp [LeastSquares.residual, matVec, sumS]; norm_num)
 
 /-- **OLS certificate**: if the residual of `(w, b)` is orthogonal to every feature column and to the
 constant column, no `(w', b')` has a smaller sum of squared errors. -/
@@ -120,12 +121,12 @@ theorem normal_eq_optimal (C : List (List α)) (y w w' : List α) (b b' : α)
   generalize hr : residual C y w b = r at *
   have hal : ∀ v, (matVec y.length C v).length = y.length := fun v => matVec_length _ _ _ hC
   have e1 : dot r (residual C y w' b') = dot r y := by
-    unfold residual
+    unfold LeastSquares.residual
     rw [dot_residual b' r y _ (hal w').symm hlen, dot_matVec _ C w' r hC hw', sum_zipWith_zero C r w' horth, hone]
     ring
   have e2 : dot r r = dot r y := by
     have e : dot r (residual C y w b) = dot r y := by
-      unfold residual
+      unfold LeastSquares.residual
       rw [dot_residual b r y _ (hal w).symm hlen, dot_matVec _ C w r hC hw, sum_zipWith_zero C r w horth, hone]
       ring
     rwa [hr] at e
@@ -135,7 +136,7 @@ theorem normal_eq_optimal (C : List (List α)) (y w w' : List α) (b b' : α)
 
 example : sse (α := ℚ) [[0, 1, 2]] [0, 0, 2] [1] (-1 / 3) ≤ sse [[0, 1, 2]] [0, 0, 2] [2] 5 :=
   normal_eq_optimal _ _ _ _ _ _ (by simp) (by simp) (by simp)
-    (by simp [residual, matVec, dotS, sumS]; norm_num) (by simp [residual, matVec, sumS]; norm_num)
+    (by simp [LeastSquares.residual, matVec, dotS, sumS]; norm_num) (by simp [LeastSquares.residual, matVec, sumS]; norm_num)
 
 /-- OLS without intercept: orthogonality to the feature columns suffices against every `w'` -/
 theorem normal_eq_optimal_no_intercept (C : List (List α)) (y w w' : List α)
@@ -147,12 +148,12 @@ theorem normal_eq_optimal_no_intercept (C : List (List α)) (y w w' : List α)
   generalize hr : residual C y w 0 = r at *
   have hal : ∀ v, (matVec y.length C v).length = y.length := fun v => matVec_length _ _ _ hC
   have e1 : dot r (residual C y w' 0) = dot r y := by
-    unfold residual
+    unfold LeastSquares.residual
     rw [dot_residual 0 r y _ (hal w').symm hlen, dot_matVec _ C w' r hC hw', sum_zipWith_zero C r w' horth]
     ring
   have e2 : dot r r = dot r y := by
     have e : dot r (residual C y w 0) = dot r y := by
-      unfold residual
+      unfold LeastSquares.residual
       rw [dot_residual 0 r y _ (hal w).symm hlen, dot_matVec _ C w r hC hw, sum_zipWith_zero C r w horth]
       ring
     rwa [hr] at e
@@ -162,7 +163,7 @@ theorem normal_eq_optimal_no_intercept (C : List (List α)) (y w w' : List α)
 
 example : sse (α := ℚ) [[-1, 1]] [1, 1] [0] 0 ≤ sse [[-1, 1]] [1, 1] [3] 0 :=
   normal_eq_optimal_no_intercept _ _ _ _ (by simp) (by simp) (by simp)
-    (by simp [residual, matVec, dotS, sumS])
+    (by simp [LeastSquares.residual, matVec, dotS, sumS])
 
 /-- **The coordinate update is the exact one-dimensional minimiser** of
 `z ↦ ½·den·z² − tmp·z + thr·|z|` (`den = ‖x_j‖² + n(1−ρ)pen > 0`, `thr = nρ·pen ≥ 0`, `tmp = x_jᵀr_j`),
@@ -229,7 +230,7 @@ theorem fit_joint_optimal_centred_partial (contig : Bool) (C : List (List α)) (
     rw [residual_centre C y w' m b', ← hyc]
     generalize hv : residual C yc w' 0 = v
     have hvs : v.sum = 0 := by
-      rw [← hv]; unfold residual
+      rw [← hv]; unfold LeastSquares.residual
       rw [sum_residual 0 yc _ (by rw [matVec_length _ _ _ hC']), sum_matVec_centred _ C w' hC' hcen, hyc,
         sum_map_sub, hm]
       field_simp; ring
@@ -443,5 +444,114 @@ example : (bcdCoord (α := ℚ) false 2 0 10 0 { w := [[1, 1]], r := [[0, 0], [0
     = [0, 0] :=
   bcdCoord_zero_below_threshold false 2 0 10 0 _ 0 [1, 1] 2 (by simp) (by norm_num [absS])
     (by norm_num [norm2U, dotU, sumU, sumU8, colsOf, rankOne, absS, Transc.sqrt, dotC, dotS, sumS, List.range, List.range.loop])
+
+/-! ### multi-task weak duality (over ℝ: the group norm needs `sqrt`) -/
+
+/-- **The multi-task duality gap computed by `duality_gap_mtl` bounds the suboptimality**: for the residual
+matrix `R = Y − XW` (hypothesis `hres`: column `k` of `R` is the single-task residual of task `k`), *no*
+coefficient matrix `W'` of the same shape lowers the documented multi-task objective
+`½‖Y − XW‖²_F + l1·Σ_j‖W_j‖₂ + ½·l2·‖W‖²_F` (`objectiveMtl`, `n` × the documented one) by more than the
+reported gap — both branches of the code (`max_j‖(XᵀR − l2·W)_j‖₂ > l1` with the rescaled dual point, and the
+plain one), through the model's own kernels (`sumS`, `sumU`, `dotS`, `norm2U`).  Matrices are lists of rows:
+`Y`, `R` : `n` rows of `t`; `W`, `W'` : `p` rows of `t`; `C` : the `p` columns of `X`.  Over ℝ because of `sqrt`. -/
+theorem gap_bounds_suboptimality_mtl (t : Nat) (C : List (List ℝ)) (Y W W' R : List (List ℝ)) (l1r pen n : ℝ)
+    (hC : ∀ c ∈ C, c.length = Y.length) (hY : ∀ y ∈ Y, y.length = t)
+    (hRn : R.length = Y.length) (hRt : ∀ r ∈ R, r.length = t)
+    (hWp : W.length = C.length) (hW : ∀ wj ∈ W, wj.length = t)
+    (hWp' : W'.length = C.length) (hW' : ∀ wj ∈ W', wj.length = t)
+    (hres : colsOf t R = List.zipWith (fun yk wk => residual C yk wk 0) (colsOf t Y) (colsOf t W))
+    (h0 : 0 ≤ l1r) (h1 : l1r ≤ 1) (hpen : 0 ≤ pen) (hn : 0 ≤ n) :
+    objectiveMtl C (colsOf t Y) (colsOf t W) W (List.replicate t 0) l1r pen n
+        - objectiveMtl C (colsOf t Y) (colsOf t W') W' (List.replicate t 0) l1r pen n
+      ≤ dualityGapMtl t C Y W R l1r pen n := by
+  have hl1 : 0 ≤ l1r * pen * n := mul_nonneg (mul_nonneg h0 hpen) hn
+  have hl2 : 0 ≤ (1 - l1r) * pen * n := mul_nonneg (mul_nonneg (sub_nonneg.mpr h1) hpen) hn
+  -- R = Y − XW, task by task
+  have hresk : ∀ k ∈ List.range t, colK k R = residual C (colK k Y) (colK k W) 0 := by
+    rw [colsOf_eq, colsOf_eq, colsOf_eq, zipWith_map_map_self] at hres
+    exact List.map_inj_left.mp hres
+  have hsq : ((List.range t).map fun k =>
+      dot (residual C (colK k Y) (colK k W) 0) (residual C (colK k Y) (colK k W) 0)).sum = frob R R := by
+    rw [← frob_colsOf t R R hRt hRt]
+    congr 1
+    apply List.map_congr_left
+    intro k hk
+    rw [hresk k hk]
+  rw [objectiveMtl_eq t C Y W l1r pen n hW, objectiveMtl_eq t C Y W' l1r pen n hW', hsq]
+  simp only [residual_zero_eq, colK_length]
+  have hn2 : (norm2U : List ℝ → ℝ) = fun wj => Real.sqrt (dot wj wj) := funext norm2U_eq
+  generalize hl1e : l1r * pen * n = l1 at hl1
+  generalize hl2e : (1 - l1r) * pen * n = l2 at hl2
+  have htr : (List.zipWith (fun a b => dot a b) (colsOf t R) (colsOf t Y)).sum = frob R Y := by
+    rw [colsOf_eq, colsOf_eq, zipWith_map_map_self]
+    exact frob_colsOf t R Y hRt hY
+  simp only [dualityGapMtl, dualNormMtl, sumS_eq, sumU_eq, dotS_eq, half_eq, hl1e, hl2e, sum_flatten_sq, htr, hn2]
+  set XTA := List.zipWith (fun c wj => List.zipWith (fun rk wjk => dot c rk - wjk * l2) (colsOf t R) wj) C W with hXTA
+  have hdn0 := normMax_nonneg (XTA.map fun wj => Real.sqrt (dot wj wj))
+  have hdn' := le_normMax (XTA.map fun wj => Real.sqrt (dot wj wj))
+  generalize normMax (XTA.map fun wj => Real.sqrt (dot wj wj)) = dn at hdn0 hdn' ⊢
+  have hdn : ∀ row ∈ XTA, Real.sqrt (dot row row) ≤ dn := fun row hrow =>
+    le_trans (le_abs_self _) (hdn' _ (List.mem_map.mpr ⟨row, hrow, rfl⟩))
+  by_cases h : l1 < dn
+  · rw [if_pos h]
+    have hdpos : 0 < dn := lt_of_le_of_lt hl1 h
+    have hc : 0 ≤ l1 / dn := div_nonneg hl1 hdn0
+    have hcd : l1 / dn * dn ≤ l1 := by rw [div_mul_cancel₀ _ (ne_of_gt hdpos)]
+    have key := weak_duality_mtl t C Y W W' R l1 l2 (l1 / dn) dn hC hRn hRt hY hWp hW hWp' hW' hl2 hc hcd hdn0 hdn
+    generalize l1 / dn = c at key ⊢
+    simp only []
+    nlinarith [key]
+  · rw [if_neg h]
+    have key := weak_duality_mtl t C Y W W' R l1 l2 1 dn hC hRn hRt hY hWp hW hWp' hW' hl2 zero_le_one
+      (by rw [one_mul]; exact le_of_not_gt h) hdn0 hdn
+    simp only []
+    nlinarith [key]
+
+
+example : objectiveMtl (α := ℝ) [[1, 0], [0, 1]] (colsOf 2 [[3, 4], [0, 0]]) (colsOf 2 [[1, 1], [0, 0]]) [[1, 1], [0, 0]]
+      (List.replicate 2 0) (1 / 2) 1 2
+    - objectiveMtl [[1, 0], [0, 1]] (colsOf 2 [[3, 4], [0, 0]]) (colsOf 2 [[0, 0], [1, 2]]) [[0, 0], [1, 2]]
+      (List.replicate 2 0) (1 / 2) 1 2
+    ≤ dualityGapMtl 2 [[1, 0], [0, 1]] [[3, 4], [0, 0]] [[1, 1], [0, 0]] [[2, 3], [0, 0]] (1 / 2) 1 2 :=
+  gap_bounds_suboptimality_mtl 2 _ _ _ _ _ _ _ _ (by simp) (by simp) (by simp) (by simp) (by simp) (by simp)
+    (by simp) (by simp) (by simp [colsOf, LeastSquares.residual, matVec, List.range, List.range.loop, List.replicate]; norm_num)
+    (by norm_num) (by norm_num) (by norm_num) (by norm_num)
+
+/-- the reported multi-task gap is **non-negative** (take `W' = W`) -/
+theorem gap_nonneg_mtl (t : Nat) (C : List (List ℝ)) (Y W R : List (List ℝ)) (l1r pen n : ℝ)
+    (hC : ∀ c ∈ C, c.length = Y.length) (hY : ∀ y ∈ Y, y.length = t)
+    (hRn : R.length = Y.length) (hRt : ∀ r ∈ R, r.length = t)
+    (hWp : W.length = C.length) (hW : ∀ wj ∈ W, wj.length = t)
+    (hres : colsOf t R = List.zipWith (fun yk wk => residual C yk wk 0) (colsOf t Y) (colsOf t W))
+    (h0 : 0 ≤ l1r) (h1 : l1r ≤ 1) (hpen : 0 ≤ pen) (hn : 0 ≤ n) :
+    0 ≤ dualityGapMtl t C Y W R l1r pen n := by
+  have := gap_bounds_suboptimality_mtl t C Y W W R l1r pen n hC hY hRn hRt hWp hW hWp hW hres h0 h1 hpen hn
+  simpa using this
+
+example : 0 ≤ dualityGapMtl (α := ℝ) 2 [[1, 0], [0, 1]] [[3, 4], [0, 0]] [[1, 1], [0, 0]] [[2, 3], [0, 0]] (1 / 2) 1 2 :=
+  gap_nonneg_mtl 2 _ _ _ _ _ _ _ (by simp) (by simp) (by simp) (by simp) (by simp) (by simp)
+    (by simp [colsOf, LeastSquares.residual, matVec, List.range, List.range.loop, List.replicate]; norm_num)
+    (by norm_num) (by norm_num) (by norm_num) (by norm_num)
+
+/-- the same with `R` *computed* as `Y − XW` by the model's `residualMtl` -/
+theorem gap_bounds_suboptimality_mtl_residual (t : Nat) (C : List (List ℝ)) (Y W W' : List (List ℝ)) (l1r pen n : ℝ)
+    (hC : ∀ c ∈ C, c.length = Y.length) (hY : ∀ y ∈ Y, y.length = t)
+    (hWp : W.length = C.length) (hW : ∀ wj ∈ W, wj.length = t)
+    (hWp' : W'.length = C.length) (hW' : ∀ wj ∈ W', wj.length = t)
+    (h0 : 0 ≤ l1r) (h1 : l1r ≤ 1) (hpen : 0 ≤ pen) (hn : 0 ≤ n) :
+    objectiveMtl C (colsOf t Y) (colsOf t W) W (List.replicate t 0) l1r pen n
+        - objectiveMtl C (colsOf t Y) (colsOf t W') W' (List.replicate t 0) l1r pen n
+      ≤ dualityGapMtl t C Y W (residualMtl t C Y W) l1r pen n := by
+  obtain ⟨h1', h2', h3'⟩ := residualMtl_spec t C Y W hC
+  exact gap_bounds_suboptimality_mtl t C Y W W' _ l1r pen n hC hY h1' h2' hWp hW hWp' hW' h3' h0 h1 hpen hn
+
+example : objectiveMtl (α := ℝ) [[1, 0], [0, 1]] (colsOf 2 [[3, 4], [0, 0]]) (colsOf 2 [[1, 1], [0, 0]]) [[1, 1], [0, 0]]
+      (List.replicate 2 0) (1 / 2) 1 2
+    - objectiveMtl [[1, 0], [0, 1]] (colsOf 2 [[3, 4], [0, 0]]) (colsOf 2 [[0, 0], [1, 2]]) [[0, 0], [1, 2]]
+      (List.replicate 2 0) (1 / 2) 1 2
+    ≤ dualityGapMtl 2 [[1, 0], [0, 1]] [[3, 4], [0, 0]] [[1, 1], [0, 0]]
+        (residualMtl 2 [[1, 0], [0, 1]] [[3, 4], [0, 0]] [[1, 1], [0, 0]]) (1 / 2) 1 2 :=
+  gap_bounds_suboptimality_mtl_residual 2 _ _ _ _ _ _ _ (by simp) (by simp) (by simp) (by simp) (by simp) (by simp)
+    (by norm_num) (by norm_num) (by norm_num) (by norm_num)
 
 end LinfaSpec.Props.C11
